@@ -179,11 +179,16 @@ def selection_records(vc, sel_cases, base_id=300000):
     Every (P, L) is also run with the limit moved by +-2^-30 or +-2^-21 (exactly
     representable, far below the grid 1/16 of the sums): for the judge this is the integer
     problem 2P, 2L+-1 - the limit sits just above / just below an attainable sum."""
+    import inspect
     import warnings
     fn = vc.HighestDensityContour.cumsum_biggest_until
+    has_key = "key" in inspect.signature(fn).parameters
     recs, cases = [], []
     for i, sc in enumerate(sel_cases):
-        P, L = sc["P"], sc["L"]
+        K = sc.get("K")            # densities; the probabilities are K div 2 (monotone, not injective)
+        if K is not None and not has_key:
+            continue               # a tree whose cumsum_biggest_until has no key argument
+        P, L = (sc["P"] if K is None else [k // 2 for k in K]), sc["L"]
         n = len(P)
         shapes = {4: [(4,), (2, 2)], 5: [(5,), (5, 1)], 6: [(2, 3), (6,)], 8: [(2, 2, 2)]}.get(n, [(n,)])
         shape = shapes[i % len(shapes)]
@@ -195,11 +200,15 @@ def selection_records(vc, sel_cases, base_id=300000):
             arr0 = arr.copy()
             sgn = (sh > 0) - (sh < 0)
             rec = dict(id=base_id + len(recs) + 1, kind="sel", exc="", P=[2 * v for v in P], L=2 * int(L) + sgn,
+                       K=[2 * v for v in P] if K is None else list(K),
                        R=[], last=0, lastexact=True, warned=False, empty=False)
             with warnings.catch_warnings(record=True) as wl:
                 warnings.simplefilter("always")
                 try:
-                    mask, last = fn(arr, limit)
+                    if K is None:
+                        mask, last = fn(arr, limit)
+                    else:
+                        mask, last = fn(arr, limit, key=(np.array(K, dtype=float) / 16.0).reshape(shape))
                     rec["R"] = [int(v) for v in np.asarray(mask).ravel().tolist()]
                     rec["last"] = 2 * int(round(float(last) * 16))
                     rec["lastexact"] = bool(float(last) * 32 == rec["last"] and np.asarray(mask).shape == shape
@@ -212,7 +221,8 @@ def selection_records(vc, sel_cases, base_id=300000):
             if not np.array_equal(arr, arr0):
                 rec["exc"] = "InputMutated"
             recs.append(rec)
-            cases.append(dict(kind="sel", P=list(P), L=int(L), shape=list(shape), shift=sh))
+            cases.append(dict(kind="sel", P=list(P), L=int(L), shape=list(shape), shift=sh,
+                              **({} if K is None else {"K": list(K)})))
     return cases, recs
 
 
@@ -220,7 +230,8 @@ def judge_selection(ctx, vc, sel_cases, label):
     cases, recs = selection_records(vc, sel_cases)
     failing = ctx.validate("Trace_C02", "Trace_C02.cfg", recs, chunk=20000)
     for case, rec in zip(cases, recs):
-        key = (f"cumsum_biggest_until P={case['P']}/16 limit={case['L']}/16"
+        key = (f"cumsum_biggest_until P={case['P']}/16 " + (f"key={case['K']}/16 " if "K" in case else "")
+               + f"limit={case['L']}/16"
                f"{'' if not case['shift'] else '%+g' % SHIFTS[case['shift']]} shape={case['shape']}")
         ctx.case(key, nontrivial=len(set(case["P"])) > 1 and 0 < case["L"] < sum(case["P"]))
         for clause in failing.get(rec["id"], []):
@@ -249,7 +260,8 @@ def synthetic_record():
     ph, pl = H.limbs_of_array(P)
     return dict(id=899999, kind="hdc", exc="", warned=False, shape=[4, 5], calls=1, aq=H.l2(H.alpha_q("0.1")),
                 limq=H.l2(H.q18(limit)), Ph=ph, Pl=pl, Fh=list(ph), Fl=list(pl), R=R, lastq=H.l2(H.q18(last)),
-                fmq=H.l2(H.q18(last)), cmp=[(1 if v > last else (0 if v == last else -1)) for v in P])
+                fmq=H.l2(H.q18(last)), cmp=[(1 if v > last else (0 if v == last else -1)) for v in P],
+                fr=[sorted(set(P)).index(v) for v in P])
 
 
 def self_test(ctx):
@@ -277,6 +289,10 @@ def self_test(ctx):
     r_swap[ins[-1]] = 0
     r_swap[outs[-1]] = 1
     var("Densest", R=r_swap)
+    # an excluded cell strictly denser than an enclosed one (densities), probabilities unchanged
+    fr_bad = list(base["fr"])
+    fr_bad[outs[0]] = max(fr_bad) + 1
+    var("DensityOrder", fr=fr_bad)
     var("Threshold", lastq=H.l2(base["lastq"][0] * H.B9 + base["lastq"][1] + 1))
     var("FmIsDensity", fmq=H.l2(2 * (base["fmq"][0] * H.B9 + base["fmq"][1])))
     # fm one ulp above the least dense enclosed cell: that cell compares as "below fm"
@@ -318,12 +334,14 @@ def run(ctx):
         "families (marginal or conditional with dependence functions) and a grid derived from the model's "
         "quantiles.  Additionally TLC enumerates every array P in [1..n -> 0..v] and limit L (n=4,v=3 quick; n=5,v=3 "
         "and n=6,v=2 thorough) and each is executed on the real staticmethod cumsum_biggest_until as dyadic floats "
-        "(exact ties cum = limit occur), also with the limit moved by +-2^-30 / +-2^-21 (just above / below an "
+        "(exact ties cum = limit occur), with and without a key array (densities K, probabilities K div 2), also with the limit moved by +-2^-30 / +-2^-21 (just above / below an "
         "attainable sum).  Near-limit contours: for 4 (quick) / 16 (thorough) small grids the total T of the grid is "
         "measured and alpha := 1 - T*(1 +- eps), eps = 1e-12, 1e-9, 1e-7, 1e-5, 1e-3 (warning required on one side, "
         "forbidden on the other).  8 / 60 contours with short-decimal cell sizes (0.1, 0.3, 0.07 ..: fm judged exactly "
         "against cell_averaged_joint_pdf), the DNVGL sea state on 0.1/0.1, an i.i.d. model with exact ties at the "
-        "threshold, all-default contours whose default upper limit is negative (RuntimeWarning expected), 14 / ~40 integer-typed "
+        "threshold, symmetric marginals (Normal, von Mises) on centred grids with non-dyadic cell sizes with alpha placed so that the "
+        "cut falls inside a pair of cells whose probabilities coincide while their densities differ (6 / 30 base "
+        "grids x up to 6 alphas, incl. the two grids of the bug report), all-default contours whose default upper limit is negative (RuntimeWarning expected), 14 / ~40 integer-typed "
         "grids (limits as python int / np.int64, cell sizes as int, list of ints, int on some axes and float on "
         "others, 2-D and 3-D) judged against the harness's float reference.  Hidden state: 8 (quick) / 40 (thorough) pairs of look-alike models - same structure, "
         "families, fixed parameters, dependence functions as parameter-less closures with different constants - run "
@@ -353,6 +371,12 @@ def run(ctx):
                          "MC_HDC_sel_wide.cfg")):
         ctx.model_check("HDC", cfg, must_cover=("Sort", "Accumulate", "Select", "Warn", "Erode", "Label"),
                         timeout=3000)
+    # cells ordered by a key (density) while the probabilities P = key div 2 are accumulated; ordering by P
+    # instead (the code before fix 6dfb42b) must put a denser cell outside
+    for cfg in ctx.pick(("MC_HDC_key_quick.cfg",), ("MC_HDC_key_quick.cfg", "MC_HDC_key_thorough5.cfg",
+                                                     "MC_HDC_key_thorough.cfg")):
+        ctx.model_check("HDC", cfg, must_cover=("Sort", "Select", "Warn"), timeout=3000)
+    ctx.model_check("HDC", "MC_HDC_mut_rankbyarray.cfg", expect_violation="DensityOrder")
     ctx.model_check("HDC", "MC_HDC_mut_strict.cfg", expect_violation="Tight")
     ctx.model_check("HDC", "MC_HDC_mut_close.cfg", expect_violation="WarnIff")
     ctx.model_check("HDC", "MC_HDC_naive.cfg", expect_violation="NaiveEq")
@@ -363,12 +387,14 @@ def run(ctx):
     sel_cases = ctx.generate("HDCGen", ctx.pick("Gen_HDC_sel_quick.cfg", "Gen_HDC_sel_thorough.cfg"), xss=XSS)
     if not ctx.quick:
         sel_cases += ctx.generate("HDCGen", "Gen_HDC_sel_thorough2.cfg", xss=XSS)
+    sel_cases += ctx.generate("HDCGen", ctx.pick("Gen_HDC_selkey_quick.cfg", "Gen_HDC_selkey_thorough.cfg"), xss=XSS)
     # V
     sel_recs = judge_selection(ctx, vc, sel_cases, "selection domain")
     kept = judge(ctx, vc, cases, "contours")
     # decimal cell sizes (exact fm), tied i.i.d. models, negative default limits (RuntimeWarning expected)
     extra = H.decimal_delta_cases(vc, np.random.default_rng(ctx.seed * 53 + 9), cfgs, ctx.pick(8, 60))
     extra += H.negative_default_limit_cases()[: ctx.pick(1, 2)]
+    extra += H.tie_cut_cases(vc, np.random.default_rng(ctx.seed * 61 + 12), ctx.pick(6, 30))
     extra += H.integer_grid_cases(vc, np.random.default_rng(ctx.seed * 59 + 10), cfgs, ctx.pick(10, 60))
     kept_x = judge(ctx, vc, extra, "decimal cell sizes / ties / negative default limits / integer grids",
                    base_id=150000)
